@@ -3,6 +3,7 @@
 package concx
 
 import (
+	"context"
 	"encoding/json"
 	"fmt"
 	"os"
@@ -74,6 +75,39 @@ func (r *rng) n(k int) int {
 	r.s ^= r.s >> 7
 	r.s ^= r.s << 17
 	return int((r.s >> 3) % uint64(k))
+}
+
+// barrierCheck: between two rounds of concurrent calls, the excerpt and the index document of every bug against its instance.
+func barrierCheck(c *cache.RepoCache, mu *sync.Mutex, bugIds *[]entity.Id, round int) string {
+	mu.Lock()
+	ids := append([]entity.Id{}, (*bugIds)...)
+	mu.Unlock()
+	for _, id := range ids {
+		e, err1 := c.Bugs().ResolveExcerpt(id)
+		b, err2 := c.Bugs().Resolve(id)
+		if err1 != nil || err2 != nil {
+			continue
+		}
+		s := b.Snapshot()
+		if e.Title != s.Title || e.LenComments != len(s.Comments) || e.EditLamportTime != b.EditLamportTime() {
+			return fmt.Sprintf("after round %d the excerpt of bug %s says title=%q comments=%d edit time=%d, its instance title=%q comments=%d edit time=%d",
+				round+1, id.Human(), e.Title, e.LenComments, e.EditLamportTime, s.Title, len(s.Comments), b.EditLamportTime())
+		}
+		// ... and what the search index holds about it: the bug is found by the last word of its title
+		if f := strings.Fields(s.Title); len(f) > 0 && strings.HasPrefix(f[len(f)-1], "word") {
+			q := query.NewQuery()
+			q.Search = []string{f[len(f)-1]}
+			hits, err := c.Bugs().Query(q)
+			found := false
+			for _, h := range hits {
+				found = found || h == id
+			}
+			if err != nil || !found {
+				return fmt.Sprintf("after round %d the search index does not find bug %s by the word %q of its title %q (hits %v, %v)", round+1, id.Human(), f[len(f)-1], s.Title, hits, err)
+			}
+		}
+	}
+	return ""
 }
 
 func one(cfg Config) *Result {
@@ -271,36 +305,15 @@ func one(cfg Config) *Result {
 			}
 		}
 		if !stuck && rounds > 1 {
-			// everybody is done with this round: what the cache lists about a bug is what its instance holds
-			mu.Lock()
-			ids := append([]entity.Id{}, bugIds...)
-			mu.Unlock()
-			for _, id := range ids {
-				e, err1 := c.Bugs().ResolveExcerpt(id)
-				b, err2 := c.Bugs().Resolve(id)
-				if err1 != nil || err2 != nil {
-					continue
-				}
-				s := b.Snapshot()
-				if e.Title != s.Title || e.LenComments != len(s.Comments) || e.EditLamportTime != b.EditLamportTime() {
-					res.Stale = fmt.Sprintf("after round %d the excerpt of bug %s says title=%q comments=%d edit time=%d, its instance title=%q comments=%d edit time=%d",
-						round+1, id.Human(), e.Title, e.LenComments, e.EditLamportTime, s.Title, len(s.Comments), b.EditLamportTime())
-					break
-				}
-				// ... and what the search index holds about it: the bug is found by the last word of its title
-				if f := strings.Fields(s.Title); len(f) > 0 && strings.HasPrefix(f[len(f)-1], "word") {
-					q := query.NewQuery()
-					q.Search = []string{f[len(f)-1]}
-					hits, err := c.Bugs().Query(q)
-					found := false
-					for _, h := range hits {
-						found = found || h == id
-					}
-					if err != nil || !found {
-						res.Stale = fmt.Sprintf("after round %d the search index does not find bug %s by the word %q of its title %q (hits %v, %v)", round+1, id.Human(), f[len(f)-1], s.Title, hits, err)
-						break
-					}
-				}
+			// everybody is done with this round: what the cache lists about a bug is what its instance holds. The looks themselves
+			// go through the cache: when a lock was left behind they never come back, which is a deadlock like any other
+			checked := make(chan string, 1)
+			go func(round int) { checked <- barrierCheck(c, &mu, &bugIds, round) }(round)
+			select {
+			case st := <-checked:
+				res.Stale = st
+			case <-time.After(20 * time.Second):
+				stuck = true
 			}
 		}
 	}
@@ -437,9 +450,17 @@ func Run(args []string) {
 	results := make([]*Result, len(cfgs))
 	hx.Parallel(len(cfgs), 4, func(i int) {
 		b, _ := json.Marshal(cfgs[i])
-		cmd := exec.Command(os.Args[0], "conc-child", string(b))
+		ctx, cancel := context.WithTimeout(context.Background(), 10*time.Minute)
+		defer cancel()
+		cmd := exec.CommandContext(ctx, os.Args[0], "conc-child", string(b))
 		outb, err := cmd.Output()
 		var r Result
+		if ctx.Err() != nil {
+			// the run never ended (the looks at the end go through the cache too: a lock left behind blocks them for good)
+			results[i] = &Result{Ev: "Run", Config: cfgs[i], Acks: []Ack{}, Maybes: []Ack{}, Bugs: []BugState{}, Panics: []string{}, Errors: []string{},
+				Deadlock: true, MayEvict: cfgs[i].Size < 1000, Diff: "the run did not end within 10 minutes"}
+			return
+		}
 		lines := strings.Split(strings.TrimSpace(string(outb)), "\n")
 		if err != nil || json.Unmarshal([]byte(lines[len(lines)-1]), &r) != nil {
 			msg := ""
